@@ -180,5 +180,57 @@ CHECKS = {
           "values_dict/prot/store_as, Attributes.order, SelfReference/XmlData/XmlAttribute fields, nested child_attrs.",
   'technique': 'Coq proof (frame invariant by induction over operation histories) over a class-store model + snapshot correspondence + fail-closed ast translator (derive) + direct oracle',
  },
+ 'C04': {
+  'text': "Whatever document a client sends (XML/SOAP, JSON, YAML, MessagePack, HttpRpc), every argument, header and nested "
+          "member handed to user code is None, a native value of the declared model (an instance of a registered subclass "
+          "where a complex type is declared), or a list of such; a request that would need another type is refused with a "
+          "validation fault.",
+  'design_ref': 'DESIGN.md section 6 (C04)',
+  'note': TB + "Typing theorems proved over Gallina models of XmlDocument.from_element (all documents and registries, validator "
+          "None/soft, parse_xsi_type on/off) and of HierDictDocument._from_dict_value/_doc_to_object for JSON/YAML/MessagePack "
+          "under soft validation, instantiated with decision tables regenerated from the source on every run (xsi:type guard; "
+          "_ret_bool/_ret_number/null-object handling; byte-string text is decoded before validation, the decode being an "
+          "observed table). Refusal of unrelated xsi:type is proved, and the pre-repair code and MessagePack ByteArray are "
+          "refuted on witnesses. Observed only: HttpRpc, SOAP envelopes and headers, validator=lxml, rich leaf types. Three "
+          "defects repaired here, the null-object one by the C05 repair; findings: MessagePack ByteArray receives arbitrary "
+          "values, SOAP headers are not schema-validated under validator=lxml.",
+  'technique': 'Coq proof (typing judgement, induction on fuel) over Gallina models of the XML and dict deserialisers + fail-closed ast translators (xsitype, dictleaf) + vm_compute correspondence + isinstance/value-space oracle with an exhaustive xsi:type retag battery',
+ },
+ 'C16': {
+  'text': "For every class hierarchy and every protocol, a subclass carries its ancestors' members followed by its own. With "
+          "polymorphic=True an instance of a subclass standing where its base is declared is written with all of its members "
+          "and a type marker - xsi:type in XML/SOAP, the class-name wrapper key in JSON/YAML/MessagePack - that resolves in the "
+          "transmitted document, and the receiver rebuilds an instance of the same subclass with equal members at every depth; "
+          "a marker naming an unknown class or a class that is not a subclass is refused. With polymorphic=False exactly the "
+          "declared class's projection is written and read back.",
+  'design_ref': 'DESIGN.md section 6 (C16)',
+  'note': TB + "Proved over a model of get_flat_type_info (odict rule), the metaclass's __extends__ rule, "
+          "get_polymorphic_target, Interface.add_class, XmlDocument.to_parent/from_element with namespace scopes, and "
+          "HierDictDocument with wrapper keys, parameterised by 11 source facts and the decision function of "
+          "XmlDocument._get_xsi_target, all regenerated from the AST on every run (c16shape; obligation C16_xsi_target_src). "
+          "Preconditions, all decidable and evaluated on every generated program and oracle value: well-formed universe, "
+          "element members only, distinct {ns}name keys, registered runtime classes, validator None. Three C16 fix commits plus "
+          "C04's xsi:type guard. Finding: a subclass of a member-less root class is not substitutable in any protocol "
+          "(C16_extends_refuted / C16_extends_partial). XmlAttribute/XmlData, sub_name/sub_ns, polymap, mixins, "
+          "complex_as=list are not modelled.",
+  'technique': 'Coq proof (17 theorems) over a Gallina model of inheritance + polymorphic codecs + fail-closed ast translator (c16shape incl. _get_xsi_target) + correspondences (class statements, registry, XML trees with marker resolution, decoders on mutated documents) + loopback oracle over six protocols',
+ },
+ 'C06': {
+  'text': "The XML Schema Spyne generates compiles, and every request or response document Spyne emits for values that satisfy "
+          "the declared constraints is valid against it (theorem over a model of the emitter and an XSD 1.0 validity relation "
+          "written from the recommendation, for all well-formed universes and conformant values; partial in two refuted "
+          "regions). For documents that use only declared fields in declared order, schema validation and soft validation "
+          "reach the same verdict for every constraint both implement (all declared-order documents; leaf half proved for "
+          "integers, strings and booleans).",
+  'design_ref': 'DESIGN.md section 6 (C06)',
+  'note': TB + "The emitter's decision tokens (which condition omits minOccurs/maxOccurs/default/nillable, facet-tag tables, "
+          "is_default lists, choice placement, use derivation, the Decimal and Boolean writers, xsi:nil values) are regenerated "
+          "into Gen/XsdEmit.v and the theorems are stated over them. Closure of the published schema is a sound decidable "
+          "check evaluated per generated universe, not a theorem over all universes. Double, Float, Date, Time, DateTime, "
+          "Duration, ByteArray, Uuid are opaque ordered kinds under library hypotheses tabulated per run; 'the schema "
+          "compiles' is observed with lxml. Three finding regions: Decimal exponent notation on the wire, a nil element of a "
+          "class with a required attribute, a choice group declared in two runs.",
+  'technique': 'Coq proof over a Gallina model of the schema emitter, the XML writer and soft validation against an XSD validity relation + fail-closed ast translator (xsdemit) + correspondences (model schema vs real XSD, XSD model vs libxml2, emit, soft) + lxml oracle',
+ },
 }
 NOT_APPLICABLE = {}
